@@ -34,6 +34,32 @@ CLAIMED = {
             "vJ, alpha_n, LTE/wall velocity, T+-, multiset of widths and wall-centre separations invariant and phase "
             "locations mapped affinely for every generated relabelling.",
             "Affine relabellings (permutation, reflection, translation) of 1- and 2-field models.", "DESIGN.md 3/C08"),
+    "C04": ("Hypothesis over potentials x wall shapes x velocities on three branches x Delta-moments; pointwise T30/T33 "
+            "oracle with the closed-form enthalpy and an independently derived out-of-equilibrium stress, backward "
+            "error in T with a forward-image clause for the hybrid double root; asymptotics by own-residual segments",
+            "Every profile point reported as success reproduced T30 (velocity form) and T33 within the backward window, "
+            "and the tails approached (T+-, -v+-), except for the listed known finding (no-root points reported as success).",
+            "tanh walls only; Delta-moments are small smooth polynomials; walls whose matching constants are inconsistent "
+            "beyond 1e-3 are C02 territory and skipped.", "DESIGN.md 3/C04, 7.3"),
+    "C09": ("Hypothesis over potentials (5 families) x temperatures x wall shapes x grid sizes; closed-form free-energy "
+            "difference as oracle with a resolution-dependent envelope, rounding floor and convergence relation; "
+            "wallProfile derivative against 6th-order differences",
+            "Pressure on fixed uniform profiles equals V(low)-V(high) within the measured geometric envelope in the "
+            "resolution variable, converges under M -> 2M, multiplier=0 keeps the shape; public route on bag potentials; "
+            "dphi/dz exact.", "Envelope constants measured on the unchanged tree (x5), recorded in TOLERANCES.",
+            "DESIGN.md 3/C09, 7.3"),
+    "C10": ("Hypothesis over potentials x tracing parameters (direct and through the manager) x ~30 temperatures per object "
+            "from far below to far above the tabulated ranges; thermodynamic identities, derivative consistency by "
+            "in-piece stencils, one-sided continuity, closed-form p=-V, alpha_n",
+            "e, w, cs2 relations, derivative consistency, continuity of p, dp, ddp, cs2 across range ends, p=-V(min) and "
+            "alpha_n(closed form) held for every generated Thermodynamics object.",
+            "Units fixed to 1 (unit dependence is C07/C11).", "DESIGN.md 3/C10, 7.3"),
+    "C11": ("Hypothesis over potentials x start x requested range (incl. past true ends) x dT x rTol x paranoid x units x "
+            "first step; closed-form branch, gradient, Hessian, ends of phases and Tc as oracle",
+            "Every tabulated node is the closed-form minimum of its branch within what tracePhase promises, tables stop on "
+            "the existing side of true ends with the flag set and reach requested ends otherwise, Tc equals the closed form.",
+            "Second-order / transcritical ends are merge-like: only pointwise invariants asserted there.",
+            "DESIGN.md 3/C11, 7.3"),
     "C12": ("Hypothesis over backgrounds x particles x function-space collision kernels x bases x modes; oracles: "
             "backward error of the linear solve, zero solution, cross-basis equality, FD->spectral convergence, "
             "independent collocation reference",
@@ -73,6 +99,15 @@ CLAIMED = {
         "DESIGN.md 3/C19",
     ),
 }
+
+CLAIMED["C20"] = (
+    "exhaustive enumeration of all 2x10000 table rows, midpoints and abscissae + Hypothesis over arguments, "
+    "derivative orders and particle contents; Bessel series / mpmath quadrature of the defining integrand / closed-form "
+    "imaginary parts as oracle; spline-of-oracle differential for the shipped interpolant",
+    "Direct evaluation, shipped tables (value and first derivative) and the one-loop thermal potential (Stefan-Boltzmann "
+    "limit, Boltzmann suppression, continuity, imaginary-part options, jCW) agree with the independent oracle.",
+    "Tolerances derived from quad's documented accuracy; measured envelope only next to the non-analytic points.",
+    "DESIGN.md 3/C20, 7.3")
 
 PENDING_REASON = "check not built yet in this session; see DESIGN.md section 3 for the planned oracle"
 
